@@ -5,7 +5,7 @@ repo = sys.argv[1] if len(sys.argv) > 1 else "/repo"
 base = json.load(open("/root/.vp/BASELINE.json"))
 want = set(base["stable_pass"])
 fd, path = tempfile.mkstemp(suffix=".xml"); os.close(fd)
-env = dict(os.environ); env.pop("PYMOCA_VERIF", None)
+env = dict(os.environ); env.pop("PYMOCA_VERIF", None); env["PYTHONPATH"] = os.path.join(repo, "src")
 r = subprocess.run(["/venv/bin/python", "-m", "pytest", "-q", "-p", "no:cacheprovider", "--timeout=900", "--continue-on-collection-errors", "-x" if False else "-q", "--junitxml=" + path], cwd=repo, capture_output=True, text=True, env=env)
 passed = set()
 for tc in ET.parse(path).getroot().iter("testcase"):
